@@ -2,7 +2,7 @@ package main
 
 // C10 — Publisher: exactly once per live subscription, in order (publisher.go, handler.go).
 // Runner for the case lines documented in lean/FpgoVerif/Model/C10.lean:
-//   seq/sched:  s[@q][:script] ; u[@q]:<id> ; p[@q]:<v> ; c[@q] ; m[@q]:<f> ; h[@q] ; go<t>[@q]:<v> ; adv<t> ; fin<t>
+//   seq/sched:  s[@q][:script] ; z[@q] (zero-value Subscription, OnNext nil) ; u[@q]:<id> ; p[@q]:<v> ; c[@q] ; m[@q]:<f> ; h[@q] ; go<t>[@q]:<v> ; adv<t> ; fin<t>
 //   stress:     k=v parameters (see c10_stress.go)
 // Observation: one token per op joined by " | ":  +id | - | n=k | m<q> | h | [q.sid:v ...] (+P<q>.<v> or D for background ops)
 
@@ -272,6 +272,17 @@ func (w *c10World) doOp(tok string) (out string) {
 			}
 		}
 		s := w.subscribe(pub, script)
+		return "+" + strconv.Itoa(s.id)
+	case name == "z":
+		// a zero-value Subscription: registered, OnNext is nil, must receive nothing and disturb nobody
+		w.mu.Lock()
+		s := &c10Sub{id: len(pub.subs) + 1}
+		pub.subs = append(pub.subs, s)
+		w.mu.Unlock()
+		ptr := pub.p.Subscribe(fpgo.Subscription[int]{})
+		w.mu.Lock()
+		s.ptr = ptr
+		w.mu.Unlock()
 		return "+" + strconv.Itoa(s.id)
 	case name == "u":
 		id, _ := strconv.Atoi(arg)
